@@ -18,7 +18,7 @@ ASSUMPTIONS = ["the Go memory model below lock/unlock: race-free programs are se
                "handler-level serialisability of session vs deny (check-then-act on the deny list) is the C07 finding K1, not re-reported here"]
 P = "Relay.Props.C12"
 THEOREMS = [(f"C12.{n}", P) for n in ["all_wellLocked", "guarded_state_covered", "stores_race_free", "store_methods_single_section",
-                                      "store_ops_linearizable"]] + \
+                                      "store_ops_linearizable", "no_blocking_under_lock"]] + \
            [("Locks.wellLocked_race_free", "Relay.Base.Locks"), ("Locks.no_race_enabled", "Relay.Base.Locks"),
             ("Locks.reach_compatible", "Relay.Base.Locks"), ("LockSerial.serializes", "Relay.Base.LockSerial")]
 
